@@ -503,7 +503,9 @@ func (c06Prop) Gen(t *Tape, ph *PhaseCfg) Case {
 		return genMulti(t)
 	}
 	if ph.P["pair"] == 1 {
-		return genPair(t, func() Case { return genContainerOpt(t, true) })
+		g := genPair(t, func() Case { return genContainerOpt(t, true) })
+		g.MapOrder = true
+		return g
 	}
 	return genContainer(t)
 }
@@ -586,7 +588,9 @@ func (c15Prop) Gen(t *Tape, ph *PhaseCfg) Case {
 		return genMulti(t)
 	}
 	if ph.P["pair"] == 1 {
-		return genPair(t, func() Case { return genContainerOpt(t, true) })
+		g := genPair(t, func() Case { return genContainerOpt(t, true) })
+		g.MapOrder = true
+		return g
 	}
 	return genContainer(t)
 }
